@@ -12,7 +12,7 @@ CHECKS = {
               "2 sessions x 2 streams, <=3 (quick) / <=4 (thorough) appends; every edge of a reduced state graph is replayed on the real "
               "store together with seeded random histories, and every recorded operation is judged by the TLA+ monitor "
               "EventStoreMon (property only) and the strict trace spec EventStoreTrace (binding); concurrent histories are "
-              "checked for linearizability by TLC (EventStoreLin); thorough adds -race."),
+              "checked for linearizability by TLC (EventStoreLin); thorough adds -race. After is modelled in two phases (iterator objects as state: Get / Begin / IterNext / Stop; one or two iterators, exhaustive): every operation - incl. SessionClosed and SessionClosed + Open + Append under the same ids - may fall between obtaining an iterator and ranging it, between two items and between two rangings, and the monitor judges that each ranging replays exactly one moment of its own duration (ReplayExact; assumption: a read begins when ranging begins)."),
         design_ref="DESIGN.md section 6 C20",
         note="Trusted: TLC, the Go harness' projection through the public API, small-scope bounds for the exhaustive part.",
         technique="TLA+ spec + TLC exhaustive; transition-cover replay and trace validation of the real store; TLC linearizability search",
@@ -56,7 +56,7 @@ CHECKS.update({
     "C07": dict(
         engine="Negotiate", category="model_checking",
         text=("NegotiateDefs.tla states C07 as five declarative clauses over (configuration, outcome) plus a check-by-check transcription of the client and "
-              "server negotiation code. TLC enumerates the complete 1970-cell matrix (requested version x transport incl. stateful without session ids x advertised subset x discover availability x a prior connection through another endpoint of the same Server x whether the client's first request is already in flight while Server.Connect is still asking the transport for its versions) "
+              "server negotiation code. TLC enumerates a matrix of 28 980 cells (quick: a 5670-cell core crossing every value of every dimension): requested version x transport incl. stateful without session ids x advertised subset x availability of server/discover and the shape its absence takes (JSON-RPC -32601 / -32022, or a plain HTTP 404/400/405/501 with a non-JSON-RPC body from a front end) x the version the peer answers initialize with (honest, each SDK version, unknown older/between/newer/garbage) x a prior connection through another endpoint of the same Server x the client's first request already in flight while Server.Connect is still asking the transport for its versions; the initialize fallback is observed on the wire; "
               "and evaluates the design on every cell; every cell is executed on a real Client/Server pair (in-memory, io pipes, SSE, streamable stateful/stateless "
               "through an in-process RoundTripper under synctest) with ListTools and CallTool right after Connect; the TLA+ monitor NegotiateMon judges each outcome."),
         design_ref="DESIGN.md section 6 C07, 5.3",
@@ -82,14 +82,14 @@ CHECKS.update({
               "server-validate chain for x-mcp-header values. TLC enumerates every abstract POST request within K deviations (3 quick: 14k cases, 5 thorough: 334k) plus an "
               "all-faults product, and the complete 540-case mirror table, checks the code-shaped tables against the property and exports the cases; every case is executed on "
               "the real handlers and through the real client, streamable transport and stateless server; the TLA+ monitors HttpGateMon/HeaderMirrorMon judge status, error code "
-              "and whether any middleware or handler observed the message."),
+              "and whether any middleware or handler observed the message. The mirror part is crossed with client-side histories (never listed; within or after a positive ttlMs; no ttl; later page; tool changed on the server with or without re-listing, cache hit, list_changed; tool moved to another page; every history of at most 3 (quick) / 4 (thorough) steps over list / wait / change / shrink) with the client's list cache transcribed in HeaderMirrorDefs; Agreement is judged for informed clients, uninformed ones are compared with the model as drift."),
         design_ref="DESIGN.md section 6 C12, 5.6",
         note="Trusted: TLC; seeded concretisation of abstract classes; injected http.LocalAddrContextKey instead of a socket; in-process Request.Write/ReadRequest hop; the gate product is K-bounded, the mirror table complete.",
         technique="TLA+ decision tables enumerated by TLC; conformance replay on real handlers under synctest; TLA+ monitors",
     ),
     "C13": dict(
         engine="KeepAlive", category="model_checking",
-        text=('KeepAlive.tla models the ticker loop of startKeepalive with an explicit clock, an environment-chosen ping outcome script, the instant at which the peer completes the handshake (keep-alive starts in Connect, before it) and the fate of the context given to Connect (kept / cancelled after tick k); TLC checks Accuracy/Completeness (including sustained pinging while keep-alive is in force)/Timing/SilentStop/NoLeftovers exhaustively for all 5461 scripts over {answered, timed-out, method-not-found, connection-error} up to length 6 x thresholds x owner closing idle / with a ping in flight / while a handler keeps Close waiting, and for scripts up to length 4 x handshake after tick 1..4 or never x Connect context cancelled after tick 0..4 (788k states), and exports all 138 312 cases; ping attempts are observed by a sending middleware. Every behaviour runs on the real code under synctest (function level, real ServerSession, real legacy ClientSession against a scripted peer); the TLA+ monitor KeepAliveMon judges the virtual-time observations.'),
+        text=('KeepAlive.tla models the ticker loop of startKeepalive with an explicit clock, an environment-chosen ping outcome script, the instant at which the peer completes the handshake (keep-alive starts in Connect, before it) and the fate of the context given to Connect (kept / cancelled after tick k); TLC checks Accuracy/Completeness (including sustained pinging while keep-alive is in force)/Timing/SilentStop/NoLeftovers exhaustively for all 5461 scripts over {answered, timed-out, method-not-found, connection-error} up to length 6 x thresholds x owner closing idle / with a ping in flight / while a handler keeps Close waiting, and for scripts up to length 4 x handshake after tick 1..4 or never x Connect context cancelled after tick 0..4, scripts <= 4 with one ping held by the session's own transport for 9/16, 1 1/16 or 2 1/16 intervals (explicit one-waiting-tick ticker semantics), owner closing while a ping is held with a tick waiting, and scripts <= 3 x how the pinging side's session was established (legacy initialize / initialize after a rejected server/discover / a version without ping) (865k states; thorough design check 3.07M), and exports all 152 996 cases; ping attempts are observed by a sending middleware; a leftover is decided by a goroutine dump, never by a goroutine count. Every behaviour runs on the real code under synctest (function level, real ServerSession, real legacy ClientSession against a scripted peer); the TLA+ monitor KeepAliveMon judges the virtual-time observations.'),
         design_ref="DESIGN.md section 6 C13",
         note="Trusted: TLC; testing/synctest virtual time; the scripted peer/Connection; the goroutine-dump census (and the goroutine-count heuristic deciding when to take it); script length <= 6. The real-time watchdog and process restart of the harness (a go1.25.0 synctest bubble can, rarely, spin inside the runtime); script length <= 4 for the handshake and context dimensions.",
         technique="TLA+ spec + TLC exhaustive; exhaustive replay of TLC-generated cases into real code with quiescence/leak check; TLA+ monitor",
@@ -125,8 +125,9 @@ CHECKS.update({
     "C06": dict(
         engine="Lifecycle", category="model_checking",
         text=("Lifecycle.tla transcribes the session receive path (validateRequestMeta, ServerSession.handle, initialize/initialized, discover) as a step function over a "
-              "455-letter message alphabet (method x per-request-meta class x initialize-params class x spelling of the _meta member names on the wire: literal, escaped solidus, \\uXXXX - "
-              "all the same JSON, so every spelling must be answered like the literal one) and states C06 as eight clauses over a phase tracker that sees only messages and replies. TLC checks the clauses on the complete "
+              "833-letter message alphabet (method x per-request-meta class x initialize-params class x spelling of the member names on the wire: literal, escaped solidus, \\uXXXX - "
+              "all the same JSON - x presentation of the metadata in params: exact _meta, only a case variant, exact next to a case variant supplying missing or overriding entries, duplicate "
+              "exact members ending in the deciding object or in null, and the same for the entries inside _meta; Lifecycle!Carried states which metadata each presentation carries) and states C06 as eight clauses over a phase tracker that sees only messages and replies. TLC checks the clauses on the complete "
               "(state x message) table and on every core-letter sequence up to length 3 (quick) / 4 (thorough), and generates table cells, transition-cover walks, all core "
               "sequences and seeded length-8 simulations; these are replayed on a real mcp.Server with every user-visible handler instrumented (raw io pipes, in-memory, "
               "stateful streamable HTTP in process) under synctest; the TLA+ monitor LifecycleMon gives the verdict."),
